@@ -201,6 +201,15 @@ static void run_sink (char **tok, int n)
       if (rin == (size_t) 0xDEADBEEFDEADULL) printf (",-"); else printf (",%zu", rin);
       if (rout == (size_t) 0xDEADBEEFDEADULL) printf (",-"); else printf (",%zu", rout);
     }
+    else if (op[0] == 'C') {
+      /* complete with NULL for some of the counter pointers: mask bit 0 = bytes_in wanted, bit 1 = bytes_out wanted */
+      size_t rin = (size_t) 0xDEADBEEFDEADULL, rout = (size_t) 0xDEADBEEFDEADULL;
+      int mask = atoi (field (op, 1));
+      rc = sc_io_sink_complete (sink, (mask & 1) ? &rin : NULL, (mask & 2) ? &rout : NULL);
+      printf ("%d,", rc); sink_state (sink);
+      if (rin == (size_t) 0xDEADBEEFDEADULL) printf (",-"); else printf (",%zu", rin);
+      if (rout == (size_t) 0xDEADBEEFDEADULL) printf (",-"); else printf (",%zu", rout);
+    }
     else if (op[0] == 'd') {
       char *f = field (op, 1);
       if (f && strchr (f, 'F')) flt_fflush = 1;
@@ -315,6 +324,14 @@ static void run_source (char **tok, int n)
     else if (c == 'c') {
       size_t rin = (size_t) 0xDEADBEEFDEADULL, rout = (size_t) 0xDEADBEEFDEADULL;
       rc = sc_io_source_complete (src, &rin, &rout);
+      printf ("%d,", rc); src_state (src);
+      if (rin == (size_t) 0xDEADBEEFDEADULL) printf (",-"); else printf (",%zu", rin);
+      if (rout == (size_t) 0xDEADBEEFDEADULL) printf (",-"); else printf (",%zu", rout);
+    }
+    else if (c == 'C') {
+      size_t rin = (size_t) 0xDEADBEEFDEADULL, rout = (size_t) 0xDEADBEEFDEADULL;
+      int mask = atoi (field (op, 1));
+      rc = sc_io_source_complete (src, (mask & 1) ? &rin : NULL, (mask & 2) ? &rout : NULL);
       printf ("%d,", rc); src_state (src);
       if (rin == (size_t) 0xDEADBEEFDEADULL) printf (",-"); else printf (",%zu", rin);
       if (rout == (size_t) 0xDEADBEEFDEADULL) printf (",-"); else printf (",%zu", rout);
